@@ -228,6 +228,12 @@ func VerifC06_CascadeInWritingTx() {
 	verifC04CascadeInWritingTx(vStoreCfg{fk: []int{vFkIndexCascade, vFkConstraintCascade}[verifrt.Choose("wiring", 2)]})
 }
 
+// cascading deletes from two referring stores, repeated for one id inside one
+// transaction (see verifC04CascadeSeveral): no reference to the id stays
+func VerifC06_CascadeFromSeveralStores() {
+	verifC04CascadeSeveral(vStoreCfg{fk: []int{vFkIndexCascade, vFkConstraintCascade}[verifrt.Choose("wiring", 2)]})
+}
+
 // second child store with an index of its own
 type vTransit struct {
 	vEmp
